@@ -13,43 +13,9 @@ import (
 // only stimulus records (kind < 10) are executed; the annotated input written back carries,
 // block by block, everything that was observed.
 
-func decode(in []*big.Int) (Config, [][]int, bool) {
-	d := hx.NewD(in)
-	var c Config
-	ns := d.Int()
-	if ns < 1 || ns > 8 {
-		return c, nil, false
-	}
-	for i := 0; i < ns; i++ {
-		c.Types = append(c.Types, d.Int())
-	}
-	for i := 0; i < ns; i++ {
-		c.Preload = append(c.Preload, d.Int())
-	}
-	c.On4, c.On6 = d.Bool(), d.Bool()
-	c.Cap, c.Batch, c.MinIdle, c.MaxIdle, c.Tot, c.Policy = d.Int(), d.Int(), d.Int(), d.Int(), d.Int(), d.Int()
-	n := d.Int()
-	var recs [][]int
-	for i := 0; i < n; i++ {
-		recs = append(recs, d.Ints())
-	}
-	return c, recs, !d.Bad
-}
-
-func encode(c Config, recs [][]int) []*big.Int {
-	var b hx.B
-	b.I(len(c.Types)).I(c.Types...).I(c.Preload...).Bool(c.On4).Bool(c.On6)
-	b.I(c.Cap, c.Batch, c.MinIdle, c.MaxIdle, c.Tot, c.Policy)
-	b.I(len(recs))
-	for _, r := range recs {
-		b.Ints(r)
-	}
-	return b.L
-}
-
 func eval(t *testing.T) func(in []*big.Int) ([]*big.Int, []*big.Int) {
 	return func(in []*big.Int) ([]*big.Int, []*big.Int) {
-		c, recs, ok := decode(in)
+		c, recs, ok := Decode(in)
 		if !ok {
 			return in, nil
 		}
@@ -88,7 +54,7 @@ func eval(t *testing.T) func(in []*big.Int) ([]*big.Int, []*big.Int) {
 		})
 		var o hx.B
 		o.I(w.Out...)
-		return encode(c, w.In), o.L
+		return Encode(c, w.In), o.L
 	}
 }
 
@@ -206,7 +172,7 @@ func genCase(r *hx.Rand, p profile) []*big.Int {
 			}
 		}
 	}
-	return encode(c, recs)
+	return Encode(c, recs)
 }
 
 func gen(r *hx.Rand) [][]*big.Int {
